@@ -258,7 +258,113 @@ func replayFIOC03(input string) (bool, string) {
 	return true, "run the checker on:\n" + chk + "\nexpected:\n" + want
 }
 
+// fioC03Fixed builds the programs that reach the corners the random generator
+// does not: (c) object streams together with object numbers above 65535 in a
+// small file (field 2 of the xref stream must be sized for the object-stream
+// numbers, not only for the offsets), (d) many uncompressed objects so that the
+// compressed xref stream data exceeds the 1024-byte buffering limit, on both
+// kinds of sink.
+func fioC03Fixed(r *Rand, thorough bool) []*fioProg {
+	var progs []*fioProg
+	mk := func(v pdf.Version, seekable bool) *fioProg {
+		return &fioProg{version: v, seekable: seekable, layout: ""}
+	}
+	small := func() pdf.Object {
+		switch r.Intn(4) {
+		case 0:
+			return pdf.Integer(r.Intn(1 << uint(1+r.Intn(40))))
+		case 1:
+			return pdf.String(genBytes(r, 30))
+		case 2:
+			return pdf.Array{pdf.Name("N"), pdf.Integer(r.Intn(1000)), pdf.Boolean(r.Bool())}
+		default:
+			return pdf.Dict{"K": pdf.Integer(r.Intn(100000)), "S": pdf.String(genBytes(r, 8))}
+		}
+	}
+	// (c) sparse numbering + object streams
+	for _, v := range []pdf.Version{pdf.V1_5, pdf.V1_7, pdf.V2_0} {
+		for _, seekable := range []bool{true, false} {
+			p := mk(v, seekable)
+			base := uint32(70000 + r.Intn(500))
+			p.ops = append(p.ops, fioOp{kind: 'A', same: -1}) // 2
+			p.ops = append(p.ops, fioOp{kind: 'P', ref: pdf.NewReference(base, 0), obj: small(), same: -1})
+			n := 2 + r.Intn(3)
+			z := fioOp{kind: 'Z', same: -1}
+			for i := 0; i < n; i++ {
+				p.ops = append(p.ops, fioOp{kind: 'A', same: -1})
+				z.refs = append(z.refs, pdf.NewReference(base+1+uint32(i), 0))
+				z.objs = append(z.objs, small())
+			}
+			p.ops = append(p.ops, z)
+			p.ops = append(p.ops, fioOp{kind: 'P', ref: pdf.NewReference(2, 0), obj: small(), same: -1})
+			// a second object stream, allocated after the first
+			p.ops = append(p.ops, fioOp{kind: 'A', same: -1})
+			p.ops = append(p.ops, fioOp{kind: 'Z', same: -1, refs: []pdf.Reference{pdf.NewReference(base+uint32(n)+2, 0)}, objs: []pdf.Object{small()}})
+			progs = append(progs, p)
+		}
+	}
+	// (c') many unused Allocs before WriteCompressed
+	{
+		p := mk(pdf.V1_7, false)
+		n := 66000
+		for i := 0; i < n; i++ {
+			p.ops = append(p.ops, fioOp{kind: 'A', same: -1})
+		}
+		p.ops = append(p.ops, fioOp{kind: 'Z', same: -1,
+			refs: []pdf.Reference{pdf.NewReference(uint32(n), 0), pdf.NewReference(uint32(n+1), 0)},
+			objs: []pdf.Object{small(), small()}})
+		progs = append(progs, p)
+	}
+	// (d) many uncompressed objects of irregular sizes
+	sizes := []int{50, 300, 1000, 4000}
+	for _, n := range sizes {
+		for _, seekable := range []bool{true, false} {
+			p := mk(pdf.V1_7, seekable)
+			for i := 0; i < n; i++ {
+				p.ops = append(p.ops, fioOp{kind: 'A', same: -1})
+			}
+			for i := 0; i < n; i++ {
+				p.ops = append(p.ops, fioOp{kind: 'P', ref: pdf.NewReference(uint32(2+i), 0), obj: small(), same: -1})
+			}
+			progs = append(progs, p)
+		}
+	}
+	return progs
+}
+
+func runFIOC03Fixed(c *Ctx) {
+	r := c.R.Fork()
+	for _, p := range fioC03Fixed(r, c.Thorough) {
+		res := fioExec(p, nil)
+		key := fmt.Sprintf("fixed v=%d seek=%v ops=%d", int(p.version), p.seekable, len(p.ops))
+		c.Case(key+" "+fmt.Sprint(r.U64()), true)
+		c.Stat("c03_fixed_programs")
+		if res.failedAt != -1 {
+			c.Violate("file-wf", "writer-rejects-valid-program", fmt.Sprintf("%s: op %d failed: %v", key, res.failedAt, res.err), p.String())
+			continue
+		}
+		chk, want, val, wantVal, err := fioChkLines(res)
+		if err != nil {
+			c.Violate("file-wf", "file-not-parseable", key+": "+err.Error(), p.String())
+			continue
+		}
+		if _, xrefRaw, err := fioTrailer(res.file, &fioDisk{file: res.file}); err == nil && xrefRaw != nil {
+			switch {
+			case len(xrefRaw) >= 1024:
+				c.Stat("xref_stream_raw_ge_1024")
+			default:
+				c.Stat("xref_stream_raw_lt_1024")
+			}
+		}
+		c.Emit(chk, want)
+		if val != "" && len(p.ops) <= 700 {
+			c.Emit(val, wantVal)
+		}
+	}
+}
+
 func runFIOC03(c *Ctx) {
+	runFIOC03Fixed(c)
 	r := c.R.Fork()
 	n := 300
 	if c.Thorough {
